@@ -158,6 +158,8 @@ def gen_pair(rng, maxrows=8, how=None, force_sort=None, min_rows=0):
                 "L": L, "R": R, "lon": lon, "ron": ron, "single": nk == 1 and rng.random() < 0.5}
         if rng.random() < 0.2 and all(s_[0] == "n" for s_ in lon + ron):
             case["lived"] = rng.randrange(1 << 30)           # see observe_join: both tables have a past
+        if rng.random() < 0.2 and not case["single"]:
+            case["reuse_keys"] = True                        # see observe_join: the key lists were used before
         if rng.random() < 0.25:
             # the observed call is preceded by other joins of the SAME two table objects (results discarded):
             # joins are functions of the tables' contents, whatever was joined, with whatever expectation, before
@@ -302,18 +304,24 @@ def ranks_of(case):
     return rank
 
 
-def call_join(case, L, R, how=None, expect="__case__", swap=False):
+def call_join(case, L, R, how=None, expect="__case__", swap=False, keys=None):
     how = how or case["how"]
-    lon, lv = _specs(case["lon"], case.get("single"))
-    ron, rv = _specs(case["ron"], case.get("single"))
+    if keys is not None:
+        (lon, lv), (ron, rv) = keys                          # the very key-spec objects of an earlier call
+    else:
+        lon, lv = _specs(case["lon"], case.get("single"))
+        ron, rv = _specs(case["ron"], case.get("single"))
     if swap:
         L, R, lon, ron = R, L, ron, lon
     e = case["expect"] if expect == "__case__" else expect
     fn = getattr(L, HOW[how][0])
     if e is None:
-        return lambda: fn(R, lon, ron), lv, rv
-    e = V.dec(e) if isinstance(e, list) else e
-    return lambda: fn(R, lon, ron, expect=e), lv, rv
+        th = lambda: fn(R, lon, ron)                         # noqa: E731
+    else:
+        e = V.dec(e) if isinstance(e, list) else e
+        th = lambda: fn(R, lon, ron, expect=e)               # noqa: E731
+    th.keys = ((lon, lv), (ron, rv)) if not swap else ((ron, rv), (lon, lv))
+    return th, lv, rv
 
 
 def observe_join(case, aux=()):
@@ -343,6 +351,16 @@ def observe_join(case, aux=()):
         if lived_ok is not None:
             obs["lived_ok"] = lived_ok
         thunk, lv, rv = call_join(case, L, R)
+        if case.get("reuse_keys"):
+            # the program keeps its key specifications (keys = ['id']; ...) and used them before, on OTHER tables of the same
+            # shape (the rows in reverse order): a join reads its key arguments, it does not rewrite them
+            try:
+                L2 = _mk_table([[nm, list(reversed(vals))] for nm, vals in case["L"]])
+                R2 = _mk_table([[nm, list(reversed(vals))] for nm, vals in case["R"]])
+                for whow in ("inner", "left", "full"):
+                    call_join(case, L2, R2, how=whow, expect="many_to_many", keys=thunk.keys)[0]()
+            except Exception:                                # noqa: BLE001
+                pass
         obs["veckinds"] = {"l": [_kind_tok(x) for x in lv], "r": [_kind_tok(x) for x in rv]}
         pre_vecs = [[V.enc(x) for x in vec._underlying] for vec in lv + rv]
         for whow, wexp in case.get("warm", ()):
